@@ -73,7 +73,9 @@ def listing_ghost(it, env, phase):
     ev = ctx.events[head["ev"]:]
     nexts = [e for e in ev if e[0] == "backend" and e[1] == "list.next"]
     built = [e for e in ev if e[0] == "built-line"]
-    child = env.lookup("path")
+    # the entry this iteration took from the lister (the value the loop variable holds, whatever its name)
+    kids = it.ctx.ghost.get("children_objs", [])
+    child = kids[-1] if kids else None
     ctx.check(f"{wname}/iteration:takes-one-entry-and-formats-that-entry", z3.BoolVal(len(nexts) == 1 and len(built) <= 1 and all(b[1] is child for b in built)), info=T7)
     w = head["stream"].fields["writer"]
     if built:
